@@ -6,7 +6,8 @@
 // output line: per step  "code n hsize_b pos_b fsize_b used_b total_b res hsize_a pos_a used_a total_a", then
 //   "C (path size)*" = final content map; " ABORT" is appended when the case was stopped (xbt_assert / crash).
 // Each case runs in a forked child (one Engine per process): one actor on a host with one disk mounted on /scratch
-// whose initial content and capacity come from the case (platform XML + content file written to the scratch dir).
+// whose initial content and capacity come from the case (platform XML + content file written to the scratch dir;
+// the content file is named relatively: it is searched next to the platform file).
 #include "drv.hpp"
 #include <simgrid/plugins/file_system.h>
 #include <simgrid/s4u.hpp>
@@ -113,8 +114,7 @@ static int run_case(const std::string& dir, const std::vector<long long>& v)
     pf << "<?xml version='1.0'?>\n<!DOCTYPE platform SYSTEM \"https://simgrid.org/simgrid.dtd\">\n"
           "<platform version=\"4.1\"><zone id=\"AS0\" routing=\"Full\"><host id=\"bob\" speed=\"1Gf\">"
           "<disk id=\"Disk1\" read_bw=\"100MBps\" write_bw=\"40MBps\"><prop id=\"size\" value=\""
-       << cap << "B\"/><prop id=\"mount\" value=\"/scratch\"/><prop id=\"content\" value=\"" << cfn
-       << "\"/></disk></host></zone></platform>\n";
+       << cap << "B\"/><prop id=\"mount\" value=\"/scratch\"/><prop id=\"content\" value=\"content.txt\"/></disk></host></zone></platform>\n";
   }
   std::vector<std::string> args = {"xbt2_fs_drv", "--log=root.thres:critical", "--log=no_loc"};
   std::vector<char*> argv;
